@@ -226,7 +226,7 @@ NOTES = {
     "C11-h": ("resize_rr fast path for a trailing record skips clearing the cached question: deleted question still reported", "caught at once (getter before and after the deletion of the question)"),
     "C12-h": ("set_response is a no-op on a packet of exactly 12 bytes", "caught at once (flag sweep on the empty object)"),
     "C13-h": ("RDATA limit 65536 instead of 65535: a DS digest of 65532 bytes gives a record whose length field wrapped to 0", "caught at once (DS digests around the 16-bit limit)"),
-    "C14-h": ("wire-to-text escapes a backslash as \\092 while text-to-wire copies it", "MISSED at first (read-back went through set_raw_name, which refuses such labels); added read-back through RR::new + insert_rr for names over backslash, quote, space, control bytes, 127, 128 and upper case - now caught"),
+    "C14-h": ("wire-to-text escapes a backslash as \\092 while text-to-wire copies it", "MISSED at first (read-back went through set_raw_name, which refuses such labels); added read-back through RR::new + insert_rr for names over backslash, quote, space, control bytes, 127, 128 and upper case - now caught; since the repair a97c4c2 of /repo the text conversion refuses a backslash (the parser never accepted one): no accepted text holds one any more, the premise of C14 does not cover such names, the change no longer violates C14 and its demonstration fails on the unchanged source too - kept for the record, not counted"),
     "C15-f": ("C table rr_ip requires a 16-byte buffer for an A record (written by the agent given C03's text)", "caught at once by C15 (the C driver hands in exactly 4 bytes against a guard page); kept under C15, whose facade it breaks"),
     "C16-h": ("throw_err returns early when the slot handed in already points to an error with the same text: the slot keeps pointing at another thread's object", "MISSED at first; added failing calls whose error slot still holds the pointer another thread obtained (step x), with equal and different texts - now caught"),
     "C17-h": ("suffix table moved into a thread-local shared by all SuffixDict values of a thread", "first run: only the regenerated inventory broke (no-failing-input-found); added the public name emitter with two caller-owned dictionaries used alternately on one thread (operation DD) - now caught with an input"),
@@ -251,6 +251,17 @@ NOTES = {
     "C14-j": ("C table set_name takes a non-null default-zone pointer with length 0 for a zone: the name gets no root byte and is refused", "MISSED at first (the C driver passed NULL for 'no zone'); the driver can now pass a valid pointer with length 0 and C14 calls set_name through the table with NULL, with an empty buffer and with a zone - now caught"),
     "C16-j": ("the description of any thread NAMED \"main\" is kept in one process-wide slot", "first run: only the regenerated inventory broke (no-failing-input-found); schedules whose threads all carry the name \"main\" added (operation HM) - now caught with an input"),
     "C17-c": ("compress() output built in a thread-local scratch buffer that is not cleared above 64 KiB of capacity", "first run: only the regenerated inventory obligation broke; added small operations right after 33 .. 65 KB ones - now caught with an input"),
+    # eleventh round (k): ten agents, told what ten rounds had tried and asked for combinations nobody varies
+    "C02-k": ("RFC 2136 'placeholder' records: with opcode UPDATE and QR set, a record of class ANY / NONE with TTL 0 and no data skips every type-specific data check (A without its 4 bytes accepted)", "first run: only the cast inventory broke (no failing input); the opcode x section x class x TTL x type x (no data | true data) matrix was added - now caught with an input"),
+    "C04-k": ("question() reads type and class after the LAST pointer of the name instead of the first: wrong for a question reached through two pointers, which can only lie in the header (.. c0 03, flag byte c0, qdcount 00 01)", "MISSED at first; header-double-pointer family added (every getter first, ten label bytes, prefixes, five types) - now caught"),
+    "C05-k": ("copy_raw_name copies an owner name verbatim when its last byte is 0: a name ending in a pointer to a multiple of 256", "caught at once (labels at 256k families of round three)"),
+    "C06-k": ("suffix dictionary also serves a suffix from the tail of a longer remembered name, compared byte-wise without regard to label boundaries: a length byte of 32..63 is also a character", "first run: correspondence broke (8 divergences, all valid outputs), no failing input; length-byte-as-character family added (Y of n bytes, a<chr(n+1)>.Y, <chr(n)>Y as one label) - now caught with an input"),
+    "C07-k": ("renamer remembers where the target name was first written and points later matches there; offset off by the 2-byte pointer when the dictionary already held L.target and L is one byte", "first run: correspondence broke (322 divergences, all valid outputs), no failing input; packets that already mention the target zone before the first match were added - now caught with an input"),
+    "C08-k": ("set_raw_name overwrites a pointer-free name of equal encoded length in place on a still-compressed packet: later pointers into the old name's interior", "caught at once"),
+    "C09-k": ("set_raw_name on the last record of a compressed packet whose owner is a bare pointer rewrites in place: names in the record's own data that point at the owner pointer are dragged along", "MISSED at first (one divergence inside a tolerated class); self-pointer family added (NS / CNAME / PTR / MX / SOA data pointing at the record's own owner pointer, three sections, last or not) - now caught"),
+    "C10-k": ("insert_rr bumps the question count before the size test: a question refused as too large after the question was deleted leaves QDCOUNT = 1", "first run: correspondence broke (220 divergences), no failing input; delete the question of an 8-9 KB packet, then insert one that does not fit - now caught with an input"),
+    "C11-k": ("the parser marks a packet as possibly compressed only when a name does not end in 0: pointers to multiples of 256 end in 0, deletion then skips decompression", "caught at once (flag soundness clause of the view oracle)"),
+    "C13-k": ("TXT cap computed from the owner length: 234+ byte owners lower it to 3570", "caught at once (owner length x text length family of round three)"),
 }
 
 
